@@ -138,3 +138,29 @@ package imperatives
 //@     invariant[notSub] notSub == dv_notSub(st, s.pos)
 //@     invariant[regex] regex == dv_regex(st, s.pos)
 //@     invariant[notRegex] notRegex == dv_notRegex(st, s.pos)
+
+// ---------------------------------------------------------------- the token table (C20): each documented option name yields its own token
+//@ func init()
+//@   property C20
+//@   modifies *
+//@   ensures[optPrefix; C20] forall i int :: 0 <= i && i < len(tokens) ==> ((tokens[i].Token == optPrefix) == (tokens[i].Pattern == "prefix="))
+//@   ensures[optNotPrefix; C20] forall i int :: 0 <= i && i < len(tokens) ==> ((tokens[i].Token == optNotPrefix) == (tokens[i].Pattern == "notPrefix="))
+//@   ensures[optSub; C20] forall i int :: 0 <= i && i < len(tokens) ==> ((tokens[i].Token == optSub) == (tokens[i].Pattern == "sub="))
+//@   ensures[optNotSub; C20] forall i int :: 0 <= i && i < len(tokens) ==> ((tokens[i].Token == optNotSub) == (tokens[i].Pattern == "notSub="))
+//@   ensures[optRegex; C20] forall i int :: 0 <= i && i < len(tokens) ==> ((tokens[i].Token == optRegex) == (tokens[i].Pattern == "regex="))
+//@   ensures[optNotRegex; C20] forall i int :: 0 <= i && i < len(tokens) ==> ((tokens[i].Token == optNotRegex) == (tokens[i].Pattern == "notRegex="))
+//@   ensures[optFlush; C20] forall i int :: 0 <= i && i < len(tokens) ==> ((tokens[i].Token == optFlush) == (tokens[i].Pattern == "flush="))
+//@   ensures[optReconn; C20] forall i int :: 0 <= i && i < len(tokens) ==> ((tokens[i].Token == optReconn) == (tokens[i].Pattern == "reconn="))
+//@   ensures[optConnBufSize; C20] forall i int :: 0 <= i && i < len(tokens) ==> ((tokens[i].Token == optConnBufSize) == (tokens[i].Pattern == "connbuf="))
+//@   ensures[optIoBufSize; C20] forall i int :: 0 <= i && i < len(tokens) ==> ((tokens[i].Token == optIoBufSize) == (tokens[i].Pattern == "iobuf="))
+//@   ensures[optSpoolBufSize; C20] forall i int :: 0 <= i && i < len(tokens) ==> ((tokens[i].Token == optSpoolBufSize) == (tokens[i].Pattern == "spoolbuf="))
+//@   ensures[optSpoolMaxBytesPerFile; C20] forall i int :: 0 <= i && i < len(tokens) ==> ((tokens[i].Token == optSpoolMaxBytesPerFile) == (tokens[i].Pattern == "spoolmaxbytesperfile="))
+//@   ensures[optSpoolSyncEvery; C20] forall i int :: 0 <= i && i < len(tokens) ==> ((tokens[i].Token == optSpoolSyncEvery) == (tokens[i].Pattern == "spoolsyncevery="))
+//@   ensures[optSpoolSyncPeriod; C20] forall i int :: 0 <= i && i < len(tokens) ==> ((tokens[i].Token == optSpoolSyncPeriod) == (tokens[i].Pattern == "spoolsyncperiod="))
+//@   ensures[optSpoolSleep; C20] forall i int :: 0 <= i && i < len(tokens) ==> ((tokens[i].Token == optSpoolSleep) == (tokens[i].Pattern == "spoolsleep="))
+//@   ensures[optUnspoolSleep; C20] forall i int :: 0 <= i && i < len(tokens) ==> ((tokens[i].Token == optUnspoolSleep) == (tokens[i].Pattern == "unspoolsleep="))
+//@   ensures[optPickle; C20] forall i int :: 0 <= i && i < len(tokens) ==> ((tokens[i].Token == optPickle) == (tokens[i].Pattern == "pickle="))
+//@   ensures[optSpool; C20] forall i int :: 0 <= i && i < len(tokens) ==> ((tokens[i].Token == optSpool) == (tokens[i].Pattern == "spool="))
+//@   ensures[optTrue; C20] forall i int :: 0 <= i && i < len(tokens) ==> ((tokens[i].Token == optTrue) == (tokens[i].Pattern == "true"))
+//@   ensures[optFalse; C20] forall i int :: 0 <= i && i < len(tokens) ==> ((tokens[i].Token == optFalse) == (tokens[i].Pattern == "false"))
+//@   ensures[sep; C20] forall i int :: 0 <= i && i < len(tokens) ==> ((tokens[i].Token == sep) == (tokens[i].Pattern == "##"))
